@@ -9,7 +9,7 @@ def generate(T, tier):
         {"name": "c05::iter_8", "group": "main", "tier": "thorough", "bounds": "MsgFrameIter on all buffers <= 8 bytes, 2 next() calls"},
         {"name": "c05::scan_abs_24", "group": "stub", "tier": "quick", "bounds": "all buffers <= 24 bytes, every declared length, CRC stubbed by a per-call symbolic sequence"},
         {"name": "c05::scan_abs_48", "group": "stub", "tier": "thorough", "bounds": "all buffers <= 48 bytes, CRC stubbed"},
-        {"name": "c05::iter_abs_18", "group": "stub", "tier": "quick", "bounds": "MsgFrameIter on all buffers <= 18 bytes (up to 3 frames), 4 next() calls, CRC stubbed"},
+        {"name": "c05::iter_abs_18", "group": "stub", "tier": "thorough", "bounds": "MsgFrameIter on all buffers <= 18 bytes (up to 3 frames), 4 next() calls, CRC stubbed"},
     ]
     return {
         "harnesses": hs,
